@@ -31,6 +31,9 @@ MapLines ==
     MethodAst(B("void"), <<>>, B("run"), <<>>, <<D(1), D(3)>>, <<D(10), D(12)>>, B("m")),
     MethodAst(B("void"), <<>>, B("inl"), <<>>, <<D(4), D(4)>>, <<D(20)>>, B("n")),
     MethodAst(B("void"), <<>>, B("outer"), <<>>, <<D(4), D(4)>>, <<D(30)>>, B("n")),
+    \* two overloads without line information: one frame resolves to two IDENTICAL frames (both are kept)
+    MethodAst(B("void"), <<>>, B("ov"), B("int"), <<>>, <<>>, B("o")),
+    MethodAst(B("void"), <<>>, B("ov"), B("long"), <<>>, <<>>, B("o")),
     ClassAst(B("com.example.Bar$Baz"), B("b.c")),
     SourceFileAst(B("Bar.kt")),
     MethodAst(B("void"), <<>>, B("plain"), <<>>, <<>>, <<>>, B("p"))>>
@@ -69,6 +72,7 @@ TextLines ==
    B("    at a.m(SourceFile:2)"),              \* mapped frame -> 1 frame
    B("    at a.n(SourceFile:4)"),              \* mapped frame -> 2 frames (inline group)
    B("    at a.m(SourceFile:9)"),              \* known method, line outside every range
+   B("    at a.o(SourceFile:5)"),              \* mapped frame -> 2 identical frames (overloads without lines)
    B("    at zz.Unknown.f(X.java:1)"),         \* unmapped frame
    <<9>> \o B("at b.c.p(Native Method)"),      \* tab indented; "Native Method" has no ':' -> not a frame
    <<9>> \o B("at b.c.p(Unknown Source:7)"),   \* tab indented mapped frame
@@ -83,6 +87,7 @@ TyThrowables == {T(B("a"), <<>>), T(B("a"), <<B("boom")>>), T(B("zz.U"), <<B("x:
 TyFrames == {F(B("a"), B("m"), D(2), B("SourceFile")),     \* -> 1
              F(B("a"), B("n"), D(4), B("SourceFile")),     \* -> 2
              F(B("a"), B("m"), D(9), B("SourceFile")),     \* known method, no entry applies
+             F(B("a"), B("o"), D(5), B("SourceFile")),     \* -> 2 identical frames
              F(B("zz.U"), B("f"), D(1), B("X.java")),      \* unknown class
              F(B("b.c"), B("p"), D(0), B("Y"))}            \* no range entry, class-level file
 TyFrameSeqs == {<<>>} \cup {<<f>> : f \in TyFrames} \cup {<<f, g>> : f, g \in TyFrames}
